@@ -380,6 +380,18 @@ class SqlImpl(TableImpl):
                     else:
                         needed_cols[node._uuid] = cnt + 1
 
+            # A distinct union compares entire rows, so no column of its operands may
+            # be pruned from a subquery below it, even if it is not used afterwards.
+            union_cols = []
+            if isinstance(nd, verbs.Union) and nd.distinct:
+                union_cols = [
+                    col._uuid
+                    for operand in (nd.child, nd.right)
+                    for col in Cache.from_ast(operand).selected_cols()
+                ]
+                for uid in union_cols:
+                    needed_cols[uid] = needed_cols.get(uid, 0) + 1
+
             table, query, sqa_expr = cls.compile_ast(nd.child, needed_cols)
 
         if isinstance(nd, verbs.Mutate | verbs.Summarize):
@@ -528,8 +540,6 @@ class SqlImpl(TableImpl):
             # If column order doesn't match, wrap right AST with a Select to reorder
             if left_col_names != right_col_names:
                 # Get right cache to access Col objects for reordering
-                from pydiverse.transform._internal.pipe.cache import Cache
-
                 right_cache = Cache.from_ast(nd.right)
 
                 # Get Col objects from right cache in the order of left columns
@@ -595,13 +605,12 @@ class SqlImpl(TableImpl):
 
         if isinstance(nd, verbs.Verb):
             # decrease counters (`needed_cols` is not copied)
-            for node in nd.iter_col_nodes():
-                if isinstance(node, Col):
-                    cnt = needed_cols.get(node._uuid)
-                    if cnt == 1:
-                        del needed_cols[node._uuid]
-                    else:
-                        needed_cols[node._uuid] = cnt - 1
+            for uid in [node._uuid for node in nd.iter_col_nodes() if isinstance(node, Col)] + union_cols:
+                cnt = needed_cols.get(uid)
+                if cnt == 1:
+                    del needed_cols[uid]
+                else:
+                    needed_cols[uid] = cnt - 1
 
         return table, query, sqa_expr
 
